@@ -251,6 +251,9 @@ Qed.
 Definition dir_wf (d : directive) : Prop :=
   match d with DTick _ _ _ arrive => Forall (fun x => req_wf (snd x)) arrive | _ => True end.
 
+(* a schedule whose arriving requests are what the front ends let through (Discipline.req_wf) *)
+Definition sch_wf (sch : list directive) : Prop := Forall dir_wf sch.
+
 Lemma SInv_tick : forall cfg s t dl bgs arr s' ob,
     SInv s -> dir_wf (DTick t dl bgs arr) -> step cfg s (DTick t dl bgs arr) = Some (s', ob) -> SInv s'.
 Proof.
